@@ -103,10 +103,8 @@ func c06Check(c stage.Cfg) func(o *obs.Obs) string {
 			if lb := o.LibBlocked(); len(lb) > 0 {
 				return fmt.Sprintf("%s/cancel-leak|context cancelled and inputs closed but library goroutines remain: %v", tag, lb)
 			}
-			for n, closed := range o.Closed {
-				if !closed {
-					return fmt.Sprintf("%s/cancel-not-closed|context cancelled, inputs closed, all library goroutines gone, but returned channel %q was never closed", tag, n)
-				}
+			for _, n := range o.NotClosed() {
+				return fmt.Sprintf("%s/cancel-not-closed|context cancelled, inputs closed, all library goroutines gone, but returned channel %q was never closed", tag, n)
 			}
 		}
 		return ""
